@@ -931,3 +931,14 @@ def len_const(b, t):
             if m:
                 return int(m.group(1))
     return None
+
+
+def value_cases(b, i, j, st):
+    """[(value term, block whose guards apply)] of a store: the stored term itself, or - when it is a local assigned on
+    several paths (`x = if c { 6 } else { 5 }`) - each of its definitions with the block it is made in."""
+    t = strip(b.rv_term(st['rv'], (i, j)))
+    if isinstance(t, tuple) and t[0] == 'var' and t[1] == b.path:
+        whole = [d for d in b.defs().get(t[2], []) if d[4]]
+        if len(whole) > 1:
+            return [(strip(b._def_term(d)), d[1]) for d in whole]
+    return [(t, i)]
